@@ -173,6 +173,8 @@ def _holdout(h, t):
 
 
 def _np_agg(aggname, keys):
+    rp = lambda ev: {"target": "verif_replays:aggregate_replay", "args": [list(keys)], "check": "result['exc'] is None and result['ok']"}  # noqa: E731
+
     @unit("C03", f"nonparametric.aggregate_intervals.{aggname}", fns=[f"{NP}.get_aggregate_prediction_intervals", f"{BASE}._get_reporting_aggregate_votes"])
     def agg(h):
         alpha = 0.9
@@ -210,15 +212,15 @@ def _np_agg(aggname, keys):
             sums.lemma_sum_int(h.ctx, d, name="lemma.sum_int")
         sums.lemma_sum_mono(h.ctx, dN, dl, name="lemma.sum_mono.lower")
         sums.lemma_sum_mono(h.ctx, dN, du, name="lemma.sum_mono.upper")
-        h.ensures("C02.lower_is_counted_plus_unit_lowers", z3.Implies(rows, lower.t == counted + lN))
-        h.ensures("C02.upper_is_counted_plus_unit_uppers", z3.Implies(rows, upper.t == counted + uN))
-        h.ensures("floor", z3.Implies(rows, z3.And(lower.t >= counted + sN, upper.t >= counted + sN)))
+        h.ensures("C02.lower_is_counted_plus_unit_lowers", z3.Implies(rows, lower.t == counted + lN), replay=rp)
+        h.ensures("C02.upper_is_counted_plus_unit_uppers", z3.Implies(rows, upper.t == counted + uN), replay=rp)
+        h.ensures("floor", z3.Implies(rows, z3.And(lower.t >= counted + sN, upper.t >= counted + sN)), replay=rp)
         h.ensures("whole_numbers", z3.Implies(rows, z3.And(_isint(lower.t), _isint(upper.t))))
         h.ensures("finite", lower.nan is None and upper.nan is None and lower.inf is None and upper.inf is None)
         mR, mT, mN = t.member("R", keys), t.member("T", keys), t.member("N", keys)
         want_dom = z3.Or(mR, mN) if classification else z3.Or(mR, mT, mN)
         # C02: the interval columns sit on the row of their own group when add_agg_predictions assigns them positionally
-        h.ensures("C02.interval_rows_align_with_estimates_table", frames.same_rows(ax, est.axis) or frames.provably_same_rows(ax, est.axis))
+        h.ensures("C02.interval_rows_align_with_estimates_table", frames.same_rows(ax, est.axis) or frames.provably_same_rows(ax, est.axis), replay=rp)
         h.ensures("C02.rows_sorted_by_group_covering_every_group", z3.And(z3.Implies(z3.And(*t.root.facts()), z3.Implies(want_dom, ax.present())), ax.order == ("sorted", tuple(keys))))
         # zero width where nothing is outstanding
         sums.lemma_sum_empty  # (documented: used below through the group-presence definition)
